@@ -79,6 +79,23 @@ func c07Deviations() []envDev {
 		t := s.cont.SigningTime
 		s.hSet(envenc.HdrExpiry, js(t.UTC().Format(time.RFC3339)), envenc.CTime(t))
 	})
+	// the same instant written with other zone offsets (equality of instants, not of representations)
+	for _, z := range []struct {
+		n   string
+		loc *time.Location
+	}{{"+05:30", time.FixedZone("", 5*3600+1800)}, {"-08:00", time.FixedZone("", -8*3600)}, {"+00:00-as-offset", time.FixedZone("x", 0)}} {
+		z := z
+		add("jws-expiry=signing-written-in-zone"+z.n, "expiry", "reject", "jws", "expiry", func(s *envSpec) {
+			txt := s.cont.SigningTime.In(z.loc).Format("2006-01-02T15:04:05-07:00")
+			s.jSet(envenc.HdrExpiry, `"`+txt+`"`)
+		})
+	}
+	add("jws-expiry=signing-both-in-zone+05:30", "expiry+time", "reject", "jws", "expiry", func(s *envSpec) {
+		loc := time.FixedZone("", 5*3600+1800)
+		txt := s.cont.SigningTime.In(loc).Format("2006-01-02T15:04:05-07:00")
+		s.jSet(envenc.HdrExpiry, `"`+txt+`"`)
+		s.jSet(s.timeHdr(), `"`+txt+`"`)
+	})
 	add("expiry=signing+1s", "expiry", "benign", "", "expiry", func(s *envSpec) {
 		t := s.cont.SigningTime.Add(time.Second)
 		s.hSet(envenc.HdrExpiry, js(t.UTC().Format(time.RFC3339)), envenc.CTime(t))
